@@ -2,7 +2,7 @@
    least-squares specification over the reals (Proofs/LfqSpec.v).  The theorems over R depend on the axioms of Coq's
    real numbers, listed by Print Assumptions below. *)
 From Coq Require Import Reals.
-From PGF Require Import Base.Prelude Base.PyStr Base.StableSort Model.Quant Model.Lfq Proofs.LfqProofs Proofs.LfqSpec.
+From PGF Require Import Base.Prelude Base.PyStr Base.StableSort Model.Quant Model.Lfq Proofs.LfqProofs Proofs.LfqScale Proofs.LfqSpec.
 
 (* ----- exact layer (Q) ----- *)
 Local Open Scope Q_scope.
@@ -55,6 +55,19 @@ Print Assumptions C11_linked_samples.
 Theorem C11_scale_equal_sum_total : forall v total, (0 < qsum v)%Q -> (qsum (scale_equal_sum v total) == total)%Q.
 Proof. exact scale_equal_sum_total. Qed.
 Print Assumptions C11_scale_equal_sum_total.
+
+(* "scales with the input" on the exact layer: multiplying all intensities by a non-zero constant changes neither which sample
+   pairs get a ratio (own and shared peptide counts) nor the median ratio itself; the total scales by the constant by definition, so
+   the LFQ intensities (total x normalised solution of the same ratio equations) scale with it *)
+Theorem C11_scaling_leaves_ratios_unchanged : forall c ci cj, ~ (c == 0)%Q ->
+  (median (both_ratios (map (Qmult c) ci) (map (Qmult c) cj)) == median (both_ratios ci cj))%Q /\
+  length (both_ratios (map (Qmult c) ci) (map (Qmult c) cj)) = length (both_ratios ci cj) /\
+  count_nonzero (map (Qmult c) ci) = count_nonzero ci.
+Proof.
+  intros c ci cj Hc. split; [apply median_ratio_scale_invariant; exact Hc|].
+  split; [apply shared_count_scale_invariant; exact Hc | apply count_nonzero_scale_invariant; exact Hc].
+Qed.
+Print Assumptions C11_scaling_leaves_ratios_unchanged.
 
 (* the statement's "permutes with the samples" is FALSE of the faithful model: the arithmetic median of an even number
    of ratios is not reciprocal, so swapping two samples changes the ratio (finding D13; witness replayed on the code) *)
